@@ -2,10 +2,11 @@ SPECIFICATION TSpec
 CONSTANTS
   Valid <- ValidRange
   Invalid <- InvalidRange
-  Subs = {"s1", "s2"}
+  Subs = {"s1", "s2", "s3", "f"}
   WrongKinds <- AllWrong
   Dev_ValidateByBytesOnly = FALSE
   MaxWrites = 0
+  Dev_SendErrorFailsWrite = TRUE
 VIEW TView
 INVARIANT NotAccepted
 ALIAS Tiny
